@@ -386,6 +386,8 @@ def Spec.classifiedLoops : List Classified := [
   ⟨"object/object.go | First | range a.Parameters", boundedByContainer, "parameter list"⟩,
   ⟨"object/object.go | Hashable | range sa.smallArr[:sa.len]", boundedByContainer, "at most MaxSmallArray elements"⟩,
   ⟨"object/object.go | Hashable | range sm.smallKV[:sm.len]", boundedByContainer, "at most MaxSmallMap entries"⟩,
+  ⟨"object/object.go | HoldsFunction | range Elements(o)", boundedByContainer, "the elements of an existing array (call result examined before it is remembered; recursion bounded by the value's size)"⟩,
+  ⟨"object/object.go | HoldsFunction | range o.(Map).mapElements()", boundedByContainer, "the pairs of an existing map"⟩,
   ⟨"object/object.go | Rest | range body", boundedByContainer, "statements of a function body"⟩,
   ⟨"object/object.go | SmallMap.Append | range right.mapElements()", boundedByContainer, "existing right map"⟩,
   ⟨"object/object.go | SmallMap.Append | range right.mapElements()", boundedByContainer, "existing right map"⟩,
